@@ -1,8 +1,10 @@
 SPECIFICATION Spec
 CONSTANTS
-  MaxOps = 4
-  Record = FALSE
-  EmitBadOnly = FALSE
+  MaxOps = 3
+  MaxLevel = 5
+  KeepLast = TRUE
+  Record = TRUE
+  EmitBadOnly = TRUE
   Interferer = "ub"
   FirstOpens = FALSE
   SwOrderUser = FALSE
@@ -13,12 +15,4 @@ CONSTANTS
   SwCacheWorld = FALSE
   SwCreateAtomic = FALSE
   SwFailKeeps = TRUE
-INVARIANT Totality
-INVARIANT Persistence
-INVARIANT SaveExact
-INVARIANT RemoveExact
-INVARIANT ReadOnly
-INVARIANT Faithful
-INVARIANT FailedStepKeeps
-INVARIANT Isolation
 CHECK_DEADLOCK FALSE
